@@ -80,10 +80,30 @@ def parseBTour (j : Json) : R BTour := do
          stat := ⟨← intF st "cost", ← intF st "distance", ← intF st "duration", ← intF st "driving", ← intF st "serving",
                   ← intF st "waiting", ← intF st "break"⟩ }
 
-/-- tours of vehicles with required breaks: the break clauses on the written tour, no model -/
+def jXStop (s : XStop) : Json :=
+  Json.mkObj ([("arrival", jInt s.arrival), ("departure", jInt s.departure),
+               ("distance", match s.distance with | some d => jInt d | none => Json.mkObj [("f", Json.null)]),
+               ("load", jList jInt s.load), ("activities", jList jAct s.activities)]
+    ++ (match s.loc with | some l => [("loc", jNat l)] | none => [("transit", Json.bool true)]))
+
+def jXTour (t : XTour) : Json := Json.mkObj [("stops", jList jXStop t.stops), ("statistic", jStat t.stat)]
+
+def parseReserved (j : Json) : R Reserved := do
+  pure { offset := ← boolF j "offset", start := ← intF j "start", stop := ← intF j "stop", dur := ← intF j "dur" }
+
+/-- tours of vehicles with required breaks: the model of the break writer must render the same tour; the break clauses are
+    evaluated on the written tour -/
 def handleBreaks (impl : Json) : R (List (String × Json)) := do
   let routes ← arrF impl "routes"
   let tours ← arrF impl "tours"
+  let mut models : List Json := []
+  for rj in routes do
+    let parsed : R (Veh × List RAct × Bool × List Reserved) := do
+      pure (← parseVeh (← fld rj "veh"), ← listF parseAct rj "acts", ← boolF rj "openEnd", ← listF parseReserved rj "reserved")
+    match parsed with
+    | .error _ => models := Json.null :: models
+    | .ok (v, acts, openEnd, rs) =>
+      models := (match writeTourX v acts openEnd rs with | some m => jXTour m | none => Json.null) :: models
   let mut bad : List Json := []
   let mut skipped := 0
   let mut withBreak := 0
@@ -98,7 +118,7 @@ def handleBreaks (impl : Json) : R (List (String × Json)) := do
       let errs := specBreakTour v t
       if !errs.isEmpty then
         bad := Json.mkObj [("vehicleId", fldD rj "vehicleId" Json.null), ("rules", Json.arr (errs.map Json.str).toArray)] :: bad
-  return [("model", Json.mkObj [("tours", Json.arr ((tours.map (fun _ => Json.null)).toArray))]),
+  return [("model", Json.mkObj [("tours", Json.arr models.reverse.toArray)]),
           ("oracle", Json.mkObj [("one_tour_per_route", Json.bool (routes.length == tours.length)),
                                  ("tours_with_required_breaks_meet_the_break_clauses", Json.bool bad.isEmpty)]),
           ("info", Json.mkObj [("bad", Json.arr bad.reverse.toArray), ("routes", jNat routes.length), ("skipped", jNat skipped),
@@ -109,6 +129,9 @@ def handle (j : Json) : R (List (String × Json)) := do
   let impl ← fld j "impl"
   match impl.getObjVal? "error" with
   | .ok e => return [("model", Json.null), ("oracle", Json.mkObj []), ("info", Json.mkObj [("error", e)])]
+  | .error _ => pure ()
+  match impl.getObjVal? "panic" with
+  | .ok e => return [("model", Json.null), ("oracle", Json.mkObj [("solver_and_writer_returned", Json.bool false)]), ("info", Json.mkObj [("panic", e)])]
   | .error _ => pure ()
   if (fldD j "k" Json.null) == Json.str "wbreak" then return (← handleBreaks impl)
   let routes ← arrF impl "routes"
